@@ -292,7 +292,7 @@ class Context(MutableMapping[Identifier, Symbol]):
         """
         return [
             symbol
-            for symbol in self.declared_symbols
+            for symbol in self.symbol_table.symbols
             if isinstance(symbol, Import) and symbol.name == "*"
             if symbol.origin not in seen_by_origin or ()
         ]
@@ -359,7 +359,7 @@ class Context(MutableMapping[Identifier, Symbol]):
             queue += starred_context.get_starred_imports(seen_by_origin=seen)
 
             # Add the resolved names to this context
-            for symbol in starred_context.declared_symbols:
+            for symbol in starred_context.symbol_table.symbols:
                 self.add(
                     Import(
                         name=symbol.name,
